@@ -20,7 +20,9 @@ FileSh(p) == [sec |-> "file", pre |-> p]
 RawShapesQ  == {RawSh("c", 8, 5, 8, 6, 2), RawSh("cxx", 0, 0, 0, 0, 8)}
 RawShapesT  == RawShapesQ \cup {RawSh("cxx", 8, 5, 8, 6, 2), RawSh("c", 4, 3, 4, 1, 1)}
 FileShapesQ == {FileSh(<<>>), FileSh(<<5, 13, 10, 7>>)}
+ShapesQ == RawShapesQ \cup FileShapesQ
 FileShapesT == {FileSh(<<>>), FileSh(<<10, 9, 8, 13, 10, 5, 4, 3, 2, 1>>)}
+ShapesT == RawShapesT \cup FileShapesT
 DatasRawQ == {<<2, 3, 4>>}
 DatasRawT == {<<1>>, <<5, 6, 7, 8, 9, 1, 2, 3, 4>>}
 DatasFileQ == {<<1>>, <<2, 10>>, <<13, 10, 3, 4>>}
